@@ -18,6 +18,8 @@ for f in files:
             if "--keep-min" in sys.argv and isinstance(costs.get(n), float) and costs[n] <= 150:
                 continue  # decided in a quick run before: a timeout under heavier load does not un-decide it
             costs[n] = "undecided" if "--mark-undecided" in sys.argv else 999.0
+        elif r["verdict"].startswith("undecided:unsupported-construct") and "--mark-undecided" in sys.argv:
+            costs[n] = "undecided"   # Kani reports an unsupported construct on a reachable path of this body
         elif r["verdict"].startswith("undecided:uf-table-overflow"):
             costs[n] = "undecided"   # the uninterpreted-function tables of lib/uf.rs are too small for this body
         elif r.get("time_s") is not None and r["verdict"] in ("discharged", "canary-refuted", "known-finding"):
